@@ -359,7 +359,7 @@ func scC10(r *Run) {
 }
 
 func init() {
-	register(&PropDef{ID: "C10", Quick: 1000, Thorough: 300000, Profiles: []ProfileDef{{Name: "stub", Share: 1, Sc: scC10}}})
+	register(&PropDef{ID: "C10", Quick: 6000, Thorough: 300000, Profiles: []ProfileDef{{Name: "stub", Share: 1, Sc: scC10}}})
 }
 
 // scC20E2E: end-to-end look-ahead bound of the non-Low-Latency download pipeline: however fast the server
